@@ -838,7 +838,22 @@ class PyHarness(object):
                 "called": [c[0] for c in self.calls], "error_set": w.err, "api_misuse": list(w.misuse), "what": what,
                 "lists": {str(j): ("not a sequence" if ob.obj.tag.get("as_list") == "no" else
                                    [["int", "float", "other", "str", "none"][it.obj.tag["kind"]] for it in ob.obj.tag["as_list"][1]])
-                          for j, ob in getattr(w, "argobj", {}).items() if ob.obj.tag.get("as_list") is not None}}
+                          for j, ob in getattr(w, "argobj", {}).items() if ob.obj.tag.get("as_list") is not None},
+                # the integer items' values in the solver's model (the native replay passes these very numbers)
+                "list_values": {str(j): [self.model_int(m, it.obj.tag.get("ival")) if it.obj.tag["kind"] == 0 else None
+                                         for it in ob.obj.tag["as_list"][1]]
+                                for j, ob in getattr(w, "argobj", {}).items()
+                                if ob.obj.tag.get("as_list") not in (None, "no")}}
+
+    @staticmethod
+    def model_int(m, term):
+        try:
+            v = m.eval(term, model_completion=True).as_long()
+            v = v - (1 << 64) if v >= (1 << 63) else v
+            # keep the number inside a C int so that every element type of the library can hold it
+            return v if -100000 < v < 100000 else None      # (also printed unchanged by the recording library's %g)
+        except Exception:
+            return None
 
     def judge(self, e, kind, value):
         cls = "python/%s" % self.pyname
@@ -1384,7 +1399,9 @@ def native_call(w):
                 return sample.get(p.tname, "1")
             if li == "not a sequence":
                 return "5"
-            return "[" + ", ".join({"int": "3", "float": "2.5", "other": "object()", "str": "'ab'", "none": "None"}[k] for k in li) + "]"
+            lv = (w.get("list_values") or {}).get(str(j)) or [None] * len(li)
+            return "[" + ", ".join(str(lv[i_]) if k == "int" and i_ < len(lv) and lv[i_] is not None else
+                                   {"int": "3", "float": "2.5", "other": "object()", "str": "'ab'", "none": "None"}[k] for i_, k in enumerate(li)) + "]"
         posargs = [sample_of(j, p) for j, p in enumerate(ins[:w["positional"]])]
         kwargs = ["%s=%s" % (p.name, sample_of(w["positional"] + j, p)) for j, p in enumerate(ins[w["positional"]:w["supplied"]])]
         if hole >= 0:
@@ -1458,8 +1475,11 @@ def native_call(w):
                 want = [(str(default_value(p_.init)) if j_ == hole and default_value(p_.init) is not None else shown.get(p_.tname, "1"))
                         for j_, p_ in enumerate(ins[:w["supplied"] + 1])]
             if lists:
-                li = [v_ for v_ in lists.values() if v_ != "not a sequence"][0]
-                want = [{"int": "3", "float": "2.5"}.get(k_, "?") for k_ in li] + ["|", str(len(li))]
+                jk = [k_ for k_, v_ in lists.items() if v_ != "not a sequence"][0]
+                li = lists[jk]
+                lv = (w.get("list_values") or {}).get(jk) or [None] * len(li)
+                want = [(str(lv[i_]) if k_ == "int" and i_ < len(lv) and lv[i_] is not None else {"int": "3", "float": "2.5"}.get(k_, "?"))
+                        for i_, k_ in enumerate(li)] + ["|", str(len(li))]
             elif any(p_.kind() == "vector" or (p_.kind() == "nativep" and (p_.attrs.get("rank") or p_.attrs.get("dimension"))) for p_ in ins[:w["supplied"]]):
                 want = ["3", "3", "|", "2"]
             if got[:len(want)] != want:
@@ -1469,7 +1489,9 @@ def native_call(w):
                       "divmod": "(11, 13)", "divide": "(6, 13)", "stride": "9", "toggle": "4", "pick": "3" if w["supplied"] == 3 else "1"}
             if w["function"] == "bump" and lists:
                 li_ = [v_ for v_ in lists.values() if v_ != "not a sequence"][0]
-                expect["bump"] = "(6, [%s])" % ", ".join("4" for _ in li_)
+                lv_ = [v_ for k_, v_ in (w.get("list_values") or {}).items() if lists.get(k_) == li_]
+                lv_ = lv_[0] if lv_ else [None] * len(li_)
+                expect["bump"] = "(6, [%s])" % ", ".join(str((lv_[i_] if i_ < len(lv_) and lv_[i_] is not None else 3) + 1) for i_ in range(len(li_)))
             if w["function"] in expect and res and res[0].split(" ", 1)[1] != expect[w["function"]]:
                 return "%s returns %s natively, the library's result is %s" % (call, res[0].split(" ", 1)[1], expect[w["function"]])
             if w["function"] == "fill2" and res:
